@@ -10,6 +10,7 @@ the rules see:
   E3  tests in NNF        `not (a and b)` -> `not a or not b`, `not a == b` -> `a != b`,
                           `not a < b` -> `a >= b`, `lo <= x <= hi` -> `lo <= x and x <= hi`
   E6  operator helpers    `operator.attrgetter("a")(x)` -> `x.a`, `methodcaller("m")(x)` -> `x.m()`, `itemgetter(k)(x)` -> `x[k]`
+  E9  map                 `map(f, it)` -> `(f(x) for x in it)` ; nested generator expressions are fused
   E4  boolean `if` exprs  `a if c else False` -> `c and a`, `True if c else b` -> `c or b`   (a, b, c boolean)
   S1  else hoisting       `if c: A(jumps) else: B`       ->  `if c: A` ; B
                           `if c: A else: B(jumps)`       ->  `if not c: B` ; A
@@ -269,6 +270,26 @@ class _Expr(ast.NodeTransformer):
 
     def visit_Call(self, node: ast.Call) -> ast.AST:
         self.generic_visit(node)
+        # E9 `map(f, it)` is `(f(x) for x in it)`
+        if isinstance(node.func, ast.Name) and node.func.id == "map" and len(node.args) == 2 and not node.keywords and (
+            _simple(node.args[0]) or isinstance(node.args[0], ast.Lambda)
+        ):
+            f0, it0 = node.args
+            used = {n.id for n in ast.walk(node) if isinstance(n, ast.Name)}
+            k = 1
+            while f"_m{k if k > 1 else ''}" in used:
+                k += 1
+            var = f"_m{k if k > 1 else ''}"
+            if isinstance(f0, ast.Lambda):
+                la = f0.args
+                if la.vararg or la.kwarg or la.kwonlyargs or la.defaults or la.posonlyargs or len(la.args) != 1:
+                    return node
+                elt: ast.expr = _Subst(la.args[0].arg, ast.Name(id=var, ctx=ast.Load())).visit(copy.deepcopy(f0.body))
+            else:
+                elt = ast.Call(func=f0, args=[ast.Name(id=var, ctx=ast.Load())], keywords=[])
+            self.changed = True
+            gen = ast.GeneratorExp(elt=elt, generators=[ast.comprehension(target=ast.Name(id=var, ctx=ast.Store()), iter=it0, ifs=[], is_async=0)])
+            return self.visit(_loc(gen, node))
         # E6 `operator.truediv(a, b)` is `a / b` (also the bare names truediv / floordiv imported from operator)
         fn_ = node.func
         opname = None
@@ -401,6 +422,28 @@ class _Expr(ast.NodeTransformer):
         self.generic_visit(node)
         node.test = self._test(node.test)
         return node
+
+    def _fuse(self, node):  # type: ignore[no-untyped-def]
+        """E10 `(f(a) for a in (g(b) for b in X))` is `(f(g(b)) for b in X)`."""
+        self.generic_visit(node)
+        if len(node.generators) != 1 or isinstance(node, ast.DictComp):
+            return node
+        g = node.generators[0]
+        inner = g.iter
+        if (
+            isinstance(inner, ast.GeneratorExp) and len(inner.generators) == 1 and not inner.generators[0].ifs and not g.ifs
+            and isinstance(g.target, ast.Name) and bool(g.is_async) == bool(inner.generators[0].is_async)
+            and _all_loads(node.elt, g.target.id) == 1
+            and not (_target_names(inner.generators[0].target) & {n.id for n in ast.walk(node.elt) if isinstance(n, ast.Name)})
+        ):
+            self.changed = True
+            node.elt = _Subst(g.target.id, inner.elt).visit(node.elt)
+            node.generators = [inner.generators[0]]
+        return node
+
+    visit_GeneratorExp = _fuse
+    visit_ListComp = _fuse
+    visit_SetComp = _fuse
 
     def visit_comprehension(self, node: ast.comprehension) -> ast.AST:
         self.generic_visit(node)
